@@ -48,3 +48,1122 @@ pub fn lalrpop_error_mapping(cx: &mut Ctx, rule: &str, p: &Src) {
         }
     }
 }
+
+// ====================================================================== panic-obligation inventory
+
+use crate::mir::{CrateFacts, Facts};
+use crate::rules::units;
+
+pub fn panic_kind(callee: &str) -> Option<String> {
+    let c = callee;
+    let k = if c.ends_with("Option::<T>::unwrap") {
+        "Option::unwrap"
+    } else if c.ends_with("Option::<T>::expect") {
+        "Option::expect"
+    } else if c.ends_with("Result::<T, E>::unwrap") {
+        "Result::unwrap"
+    } else if c.ends_with("Result::<T, E>::expect") || c.ends_with("Result::<T, E>::unwrap_err") || c.ends_with("Result::<T, E>::expect_err") {
+        "Result::expect"
+    } else if c.contains("panicking::") {
+        "panic"
+    } else if c.contains("CharWindow<T, N> as std::ops::Index") {
+        "CharWindow::index"
+    } else if c.contains("std::ops::Index<") || c.contains("std::ops::IndexMut<") || c.contains("as std::ops::Index") || c.contains("as std::ops::IndexMut") {
+        "index"
+    } else if c.ends_with("Vec::<T, A>::remove") || c.ends_with("Vec::<T, A>::swap_remove") {
+        "Vec::remove"
+    } else if c.ends_with("Vec::<T, A>::insert") {
+        "Vec::insert"
+    } else if c.ends_with("Vec::<T, A>::drain") || c.ends_with("String::drain") {
+        "drain"
+    } else if c.ends_with("String::truncate") {
+        "String::truncate"
+    } else if c.ends_with("String::insert") || c.ends_with("String::insert_str") || c.ends_with("String::remove") || c.ends_with("String::split_off") || c.ends_with("String::replace_range") {
+        "String::insert/remove"
+    } else if c.ends_with("::split_at") || c.ends_with("::split_at_mut") {
+        "split_at"
+    } else if c.ends_with("TextRange::new") || c.contains("for rustpython_ast::text_size::TextRange>::from") || c.contains("for rustpython_parser_vendored::text_size::TextRange>::from") {
+        "TextRange::new"
+    } else if c.contains("TextSize as std::ops::Sub") || c.contains("TextRange as std::ops::Sub") {
+        "TextSize::sub"
+    } else if c.contains("TextSize as std::ops::Add") || c.contains("TextRange as std::ops::Add") {
+        "TextSize::add"
+    } else if c.ends_with("unreachable_unchecked") || c.contains("get_unchecked") || c.ends_with("from_utf8_unchecked") || c.ends_with("from_u32_unchecked") || c.ends_with("unwrap_unchecked") {
+        "unchecked"
+    } else if c.contains("RefCell") && (c.ends_with("::borrow") || c.ends_with("::borrow_mut")) {
+        "RefCell::borrow"
+    } else if c.ends_with("copy_from_slice") || c.ends_with("::step_by") || c.ends_with("::chunks") || c.ends_with("::windows") || c.ends_with("str::repeat") || c.ends_with("::repeat") && c.contains("slice") {
+        "slice-contract"
+    } else {
+        return None;
+    };
+    Some(k.to_string())
+}
+
+fn is_lalrpop_internal(caller: &str, file: &str) -> bool {
+    if !file.ends_with("parser/src/python.rs") {
+        return false;
+    }
+    // user-written action bodies are `python::__action<N>`
+    let tail = caller.strip_prefix("python::__action").unwrap_or("x");
+    !(tail.chars().next().map_or(false, |c| c.is_ascii_digit()) && tail.chars().all(|c| c.is_ascii_digit() || c == ':' || c == '{' || c == '}' || c == '#' || c.is_alphabetic()))
+}
+
+/// (function, kind) -> count over a crate, excluding generated LALRPOP internals.
+pub fn panic_inventory(cf: &CrateFacts, file_filter: &dyn Fn(&str) -> bool) -> BTreeMap<(String, String), usize> {
+    let mut inv: BTreeMap<(String, String), usize> = BTreeMap::new();
+    for c in &cf.calls {
+        if is_lalrpop_internal(&c.caller, &c.file) || !file_filter(&c.file) {
+            continue;
+        }
+        if let Some(k) = panic_kind(&c.callee) {
+            *inv.entry((c.caller.clone(), k)).or_insert(0) += 1;
+        }
+    }
+    for a in &cf.asserts {
+        if a.kind == "MisalignedPointerDereference" || a.kind == "NullPointerDereference" {
+            continue; // compiler-inserted debug checks on reference derefs; cannot fail in safe code
+        }
+        if is_lalrpop_internal(&a.func, &a.file) || !file_filter(&a.file) {
+            continue;
+        }
+        *inv.entry((a.func.clone(), format!("assert:{}", a.kind))).or_insert(0) += 1;
+    }
+    inv
+}
+
+pub struct SiteRow {
+    pub func: &'static str,
+    pub kind: &'static str,
+    pub max: usize,
+    pub discharge: &'static str,
+    pub why: &'static str,
+}
+
+/// Compare an inventory with a reviewed table. Action bodies (`python::__actionN`) are summed per kind.
+pub fn check_inventory(cx: &mut Ctx, rule: &str, inv: &BTreeMap<(String, String), usize>, table: &[SiteRow], rel: &str) {
+    let mut actions: BTreeMap<String, usize> = BTreeMap::new();
+    let mut seen_rows = BTreeSet::new();
+    for ((func, kind), n) in inv {
+        if func.starts_with("python::__action") {
+            *actions.entry(kind.clone()).or_insert(0) += n;
+            continue;
+        }
+        match table.iter().enumerate().find(|(_, r)| r.func == func && r.kind == kind) {
+            Some((i, r)) => {
+                seen_rows.insert(i);
+                if *n <= r.max {
+                    cx.ok(rule, &format!("{}: {} x{} -- {}: {}", func, kind, n, r.discharge, r.why));
+                } else {
+                    cx.fail(rule, &format!("{}/undischarged/{}/{}", rule, func, kind), rel, &format!("{} has {} `{}` sites but only {} are reviewed ({}): the additional site(s) can panic and have no discharge", func, n, kind, r.max, r.discharge));
+                }
+            }
+            None => cx.fail(rule, &format!("{}/undischarged/{}/{}", rule, func, kind), rel, &format!("{} contains {} panic-capable `{}` site(s) that are not in the reviewed site table: an undischarged panic obligation", func, n, kind)),
+        }
+    }
+    for (kind, n) in actions {
+        match table.iter().find(|r| r.func == "<grammar actions>" && r.kind == kind) {
+            Some(r) if n <= r.max => cx.ok(rule, &format!("grammar actions: {} x{} -- {}: {}", kind, n, r.discharge, r.why)),
+            Some(r) => cx.fail(rule, &format!("{}/undischarged/actions/{}", rule, kind), "parser/src/python.lalrpop", &format!("grammar actions contain {} `{}` sites, {} are reviewed", n, kind, r.max)),
+            None => cx.fail(rule, &format!("{}/undischarged/actions/{}", rule, kind), "parser/src/python.lalrpop", &format!("grammar actions contain {} `{}` site(s) of a kind that is not reviewed", n, kind)),
+        }
+    }
+    let _ = seen_rows;
+}
+
+const PARSER_SITES: &[SiteRow] = &[
+    SiteRow { func: "<rustpython_ast::ModExpression as parser::Parse>::parse_tokens", kind: "panic", max: 1, discharge: "D.mode", why: "unreachable!: Top's StartExpression alternative builds Mod::Expression (C01.T4)" },
+    SiteRow { func: "<rustpython_ast::ModInteractive as parser::Parse>::parse_tokens", kind: "panic", max: 1, discharge: "D.mode", why: "unreachable!: Top's StartInteractive alternative builds Mod::Interactive (C01.T4)" },
+    SiteRow { func: "<rustpython_ast::ModModule as parser::Parse>::parse_tokens", kind: "panic", max: 1, discharge: "D.mode", why: "unreachable!: Top's StartModule alternative builds Mod::Module (C01.T4)" },
+    SiteRow { func: "parser::parse_program::{closure#0}", kind: "panic", max: 1, discharge: "D.mode", why: "unreachable!: parse(.., Mode::Module, ..) returns Mod::Module (C01.T4)" },
+    SiteRow { func: "<rustpython_ast::Stmt as parser::Parse>::parse_tokens", kind: "index", max: 1, discharge: "D.lenmatch", why: "statements[1] in the `_` arm of match statements.len() after arms 0 and 1" },
+    SiteRow { func: "<rustpython_ast::Stmt as parser::Parse>::parse_tokens", kind: "Option::unwrap", max: 1, discharge: "D.lenmatch", why: "statements.pop().unwrap() in the arm len == 1" },
+    SiteRow { func: "<soft_keywords::SoftKeywordTransformer<I> as std::iter::Iterator>::next", kind: "assert:Overflow", max: 4, discharge: "D.counter", why: "bracket-depth counters, incremented once per peeked token (bounded by the token count < 2^31)" },
+    SiteRow { func: "function::parse_args", kind: "TextRange::new", max: 1, discharge: "D.range", why: "(start, end) is the @L/@R pair captured around one FunctionArgument (non-nullable)" },
+    SiteRow { func: "<lexer::CharWindow<T, N> as std::ops::Index<Idx>>::index", kind: "index", max: 1, discharge: "D.idx", why: "forwards to the [Option<char>; 3] array: every caller passes a constant slot (C03.D.const)" },
+    SiteRow { func: "lexer::CharWindow::<T, N>::slide", kind: "Option::expect", max: 1, discharge: "D.arr", why: "last_mut() of [Option<char>; N], N = 3 at the only instantiation" },
+    SiteRow { func: "lexer::Indentations::current", kind: "Option::expect", max: 1, discharge: "D.stack", why: "the stack starts with one level and pop() refuses to remove it (C05.I1)" },
+    SiteRow { func: "lexer::Lexer::<T>::at_exponent", kind: "CharWindow::index", max: 2, discharge: "D.idx", why: "constant slots" },
+    SiteRow { func: "lexer::Lexer::<T>::consume_character", kind: "CharWindow::index", max: 23, discharge: "D.idx", why: "constant slots" },
+    SiteRow { func: "lexer::Lexer::<T>::consume_character", kind: "Option::unwrap", max: 1, discharge: "D.entry", why: "default arm: the character passed by consume_normal is still in window[0]" },
+    SiteRow { func: "lexer::Lexer::<T>::consume_character", kind: "TextRange::new", max: 40, discharge: "C05.O1", why: "start taken before end, positions only advance" },
+    SiteRow { func: "lexer::Lexer::<T>::consume_character", kind: "assert:Overflow", max: 6, discharge: "C04.L1", why: "nesting -= 1 dominated by the nesting == 0 return; += 1 bounded by the input length" },
+    SiteRow { func: "lexer::Lexer::<T>::consume_normal", kind: "CharWindow::index", max: 1, discharge: "D.idx", why: "constant slot" },
+    SiteRow { func: "lexer::Lexer::<T>::eat_indentation", kind: "CharWindow::index", max: 1, discharge: "D.idx", why: "constant slot" },
+    SiteRow { func: "lexer::Lexer::<T>::eat_indentation", kind: "assert:Overflow", max: 2, discharge: "D.counter", why: "spaces/tabs incremented once per consumed 1-byte character (C05.W1), input < 2^32 bytes" },
+    SiteRow { func: "lexer::Lexer::<T>::eat_single_char", kind: "TextRange::new", max: 1, discharge: "C05.L1", why: "start taken before end" },
+    SiteRow { func: "lexer::Lexer::<T>::eat_single_char::{closure#0}", kind: "unchecked", max: 1, discharge: "D.entry", why: "unreachable_unchecked: every caller has a character established in window[0] (C05.O1 interpreter)" },
+    SiteRow { func: "lexer::Lexer::<T>::handle_indentations", kind: "TextSize::sub", max: 2, discharge: "D.indent", why: "tok_pos - spaces - tabs: that many 1-byte characters were consumed on this line (C05.W1)" },
+    SiteRow { func: "lexer::Lexer::<T>::handle_indentations", kind: "TextRange::new", max: 1, discharge: "D.indent", why: "start = end - widths" },
+    SiteRow { func: "lexer::Lexer::<T>::inner_next", kind: "Vec::remove", max: 1, discharge: "C05.Q1", why: "pending.remove(0) after `while pending.is_empty()`" },
+    SiteRow { func: "lexer::Lexer::<T>::is_digit_of_radix", kind: "panic", max: 1, discharge: "D.radix", why: "unimplemented!: every radix passed down is a literal of {2, 8, 10, 16} (C06.R1)" },
+    SiteRow { func: "lexer::Lexer::<T>::is_identifier_continuation", kind: "CharWindow::index", max: 1, discharge: "D.idx", why: "constant slot" },
+    SiteRow { func: "lexer::Lexer::<T>::lex_comment", kind: "CharWindow::index", max: 1, discharge: "D.idx", why: "constant slot" },
+    SiteRow { func: "lexer::Lexer::<T>::lex_comment", kind: "Option::unwrap", max: 1, discharge: "D.some", why: "next_char() after the match that returns unless window[0] is Some(_)" },
+    SiteRow { func: "lexer::Lexer::<T>::lex_identifier", kind: "CharWindow::index", max: 1, discharge: "D.idx", why: "constant slice bound" },
+    SiteRow { func: "lexer::Lexer::<T>::lex_identifier", kind: "Option::unwrap", max: 1, discharge: "D.some", why: "inside while is_identifier_continuation()" },
+    SiteRow { func: "lexer::Lexer::<T>::lex_identifier", kind: "TextRange::new", max: 2, discharge: "C05.L1", why: "start taken before end" },
+    SiteRow { func: "lexer::Lexer::<T>::lex_normal_number", kind: "CharWindow::index", max: 10, discharge: "D.idx", why: "constant slots" },
+    SiteRow { func: "lexer::Lexer::<T>::lex_normal_number", kind: "Option::unwrap", max: 3, discharge: "D.some", why: "each next_char().unwrap() is dominated by a Some-test of window[0]" },
+    SiteRow { func: "lexer::Lexer::<T>::lex_normal_number", kind: "Result::unwrap", max: 2, discharge: "D.digits", why: "text built only from radix_run(10), non-empty on the integer path" },
+    SiteRow { func: "lexer::Lexer::<T>::lex_normal_number", kind: "TextRange::new", max: 4, discharge: "C05.L1", why: "start taken before end" },
+    SiteRow { func: "lexer::Lexer::<T>::lex_number", kind: "CharWindow::index", max: 1, discharge: "D.idx", why: "constant slice bound" },
+    SiteRow { func: "lexer::Lexer::<T>::lex_number_radix", kind: "TextRange::new", max: 1, discharge: "C05.L1", why: "start_pos precedes end_pos" },
+    SiteRow { func: "lexer::Lexer::<T>::lex_string", kind: "CharWindow::index", max: 2, discharge: "D.idx", why: "constant slice bounds" },
+    SiteRow { func: "lexer::Lexer::<T>::lex_string", kind: "Option::unwrap", max: 1, discharge: "D.prefix", why: "the quote sits at window[prefix_len]: every caller matched it there (C06.P1)" },
+    SiteRow { func: "lexer::Lexer::<T>::lex_string", kind: "TextRange::new", max: 1, discharge: "C05.L1", why: "start taken before end" },
+    SiteRow { func: "lexer::Lexer::<T>::new", kind: "TextSize::add", max: 1, discharge: "D.space", why: "BOM length added to the start offset (within the 32-bit offset space of the property's quantifier)" },
+    SiteRow { func: "lexer::Lexer::<T>::new", kind: "CharWindow::index", max: 1, discharge: "D.idx", why: "constant slot" },
+    SiteRow { func: "lexer::Lexer::<T>::next_char", kind: "TextSize::add", max: 3, discharge: "D.space", why: "position advance by consumed bytes (start + len < 2^32 by the property's quantifier)" },
+    SiteRow { func: "lexer::Lexer::<T>::next_char", kind: "CharWindow::index", max: 2, discharge: "D.idx", why: "constant slots" },
+    SiteRow { func: "lexer::Lexer::<T>::radix_run", kind: "CharWindow::index", max: 2, discharge: "D.idx", why: "constant slots" },
+    SiteRow { func: "lexer::Lexer::<T>::take_number", kind: "CharWindow::index", max: 1, discharge: "D.idx", why: "constant slot" },
+    SiteRow { func: "lexer::Lexer::<T>::take_number::{closure#0}", kind: "Option::unwrap", max: 1, discharge: "D.some", why: "closure of take_char.then(..) with take_char = is_digit_of_radix(window[0], radix)" },
+    SiteRow { func: "parser::parse_error_from_lalrpop::{closure#0}", kind: "index", max: 1, discharge: "D.lenmatch", why: "expected[0] under (expected.len() == 1).then(..)" },
+    SiteRow { func: "soft_keywords::soft_to_name", kind: "panic", max: 1, discharge: "D.mode", why: "unreachable!: called only on the tokens matched by the enclosing Match | Case | Type arms" },
+    SiteRow { func: "string::StringParser::<'a>::new", kind: "TextSize::add", max: 2, discharge: "D.space", why: "prefix length + quote length, token start + that (inside the token)" },
+    SiteRow { func: "string::StringParser::<'a>::next_char", kind: "TextSize::add", max: 1, discharge: "D.space", why: "position advance inside the token" },
+    SiteRow { func: "string::StringParser::<'a>::parse_octet", kind: "Option::unwrap", max: 2, discharge: "D.peek/D.octal", why: "next_char() after peek() matched a digit; char::from_u32 of a value <= 0o777" },
+    SiteRow { func: "string::StringParser::<'a>::parse_octet", kind: "Result::unwrap", max: 1, discharge: "D.octal", why: "<= 3 octal digits fit u32" },
+    SiteRow { func: "string::StringParser::<'a>::parse_spec", kind: "assert:Overflow", max: 1, discharge: "D.counter", why: "nested + 1 with nested < 2 (parse_fstring returns early for nested >= 2)" },
+    SiteRow { func: "string::StringParser::<'a>::parse_unicode_literal", kind: "assert:Overflow", max: 4, discharge: "D.hex", why: "every call passes a literal digit count <= 8, so the shifts and the sum stay below 2^32" },
+    SiteRow { func: "string::StringParser::<'a>::range", kind: "TextRange::new", max: 1, discharge: "C05.L1", why: "the token's own start..end" },
+    SiteRow { func: "string::parse_fstring_expr", kind: "TextSize::sub", max: 1, discharge: "D.rebase", why: "location - 1: location was taken after consuming the `{` (C02.R6)" },
+    SiteRow { func: "string::parse_strings", kind: "index", max: 2, discharge: "D.nonempty", why: "values[0]: every grammar call site passes (@L string @R)+ (C02.R5)" },
+    SiteRow { func: "string::parse_strings", kind: "Option::unwrap", max: 1, discharge: "D.nonempty", why: "values.last().unwrap()" },
+    SiteRow { func: "string::parse_strings", kind: "TextRange::new", max: 3, discharge: "D.range", why: "first start .. last end of consecutive tokens" },
+    SiteRow { func: "string::parse_strings", kind: "panic", max: 3, discharge: "D.kind", why: "unreachable!: parse_string yields only the node kinds of its literal kind (bytes / str / f-string partition, C06.P1)" },
+    SiteRow { func: "string::parse_strings::{closure#3}", kind: "TextRange::new", max: 1, discharge: "D.range", why: "as above" },
+    SiteRow { func: "string::parse_strings::{closure#3}", kind: "drain", max: 1, discharge: "D.full", why: "drain(..) of the full range never panics" },
+    SiteRow { func: "<grammar actions>", kind: "Option::unwrap", max: 26, discharge: "C03.A1", why: "each unwrap in an action is a range-end chain (C02.R1) or guarded by a non-emptiness fact of the grammar" },
+];
+
+pub fn run(cx: &mut Ctx) {
+    crate::g1::run(cx, "C03.G1");
+    let facts = units::load_facts(cx, "C03.N1");
+    if let Some(facts) = &facts {
+        parser_inventory(cx, facts);
+        recursion_inventory(cx, facts);
+        units::position_inventories(cx, "C03.U2", facts, true);
+    }
+    crate::rules::lexer_rules::byte_accounting(cx, "C03.N2");
+    discharge_some(cx);
+    discharge_constants(cx);
+    action_unwraps(cx);
+    nullable_ranges(cx);
+    progress(cx);
+    units::error_offsets(cx, "C03.E2");
+    if let Ok(p) = sm::load(&cx.repo, "parser/src/parser.rs") {
+        cx.rule("C03.E1", "parse_error_from_lalrpop maps every LALRPOP error variant, without a wildcard arm, to a ParseError whose offset is that variant's own location / token start");
+        cx.floor("C03.E1", 5);
+        lalrpop_error_mapping(cx, "C03.E1", &p);
+    }
+    unsafe_inventory(cx);
+    crate::rules::lexer_rules::operator_trie(cx, "C03.O1");
+    crate::rules::lexer_rules::pending_fifo(cx, "C03.Q1");
+    crate::rules::lexer_rules::indent_pairing(cx, "C03.I1");
+}
+
+fn parser_inventory(cx: &mut Ctx, facts: &Facts) {
+    let rule = "C03.N1";
+    cx.rule(rule, "panic-obligation inventory of rustpython_parser from resolved MIR (every Option/Result unwrap/expect, panic!/unreachable!/unimplemented!, slice/Vec/CharWindow indexing, Vec::remove/insert/drain, String::truncate/insert, split_at, TextRange::new, TextSize add/sub, *_unchecked call, and every Overflow/BoundsCheck/Division assert; LALRPOP internals excluded on the strength of G1): every site belongs to a (function, kind) row of the reviewed site table with its discharge rule, and no function has more sites of a kind than reviewed");
+    cx.floor(rule, 60);
+    let Some(cf) = facts.krate("rustpython_parser") else { return cx.anchor_missing(rule, "MIR facts of rustpython_parser") };
+    let inv = panic_inventory(cf, &|_| true);
+    let total: usize = inv.values().sum();
+    cx.unit("panic-capable sites in rustpython_parser (outside LALRPOP internals)", total);
+    check_inventory(cx, rule, &inv, PARSER_SITES, "parser/src");
+    for r in PARSER_SITES {
+        if r.discharge.starts_with("D.space") || r.discharge.starts_with("D.counter") {
+            cx.assume(&format!("{} / {}: {} ({})", r.func, r.kind, r.why, r.discharge));
+        }
+    }
+}
+
+fn recursion_inventory(cx: &mut Ctx, facts: &Facts) {
+    let rule = "C03.C1";
+    cx.rule(rule, "recursion inventory: the strongly connected components of the resolved call graph of rustpython_parser are exactly the reviewed ones — set_context (structural recursion on an owned subtree) and the parser cycle through parse_fstring_expr (re-entered only with a strict substring: the field text without its braces; f-string nesting is cut at nested >= 2) — a new recursive cycle is reported");
+    cx.floor(rule, 3);
+    let Some(cf) = facts.krate("rustpython_parser") else { return cx.anchor_missing(rule, "MIR facts") };
+    let sccs = cf.recursive_sccs(&|_| true);
+    let mut seen_ctx = false;
+    let mut seen_big = false;
+    for scc in &sccs {
+        let user: Vec<&String> = scc.iter().filter(|n| !n.starts_with("python::") && !n.starts_with("<python::")).collect();
+        if scc.iter().all(|n| n == "context::set_context" || n.starts_with("context::set_context::{closure")) {
+            seen_ctx = true;
+            cx.ok(rule, "SCC {set_context}: structural recursion over Tuple/List/Starred elements");
+            continue;
+        }
+        if scc.iter().any(|n| n == "string::parse_fstring_expr") {
+            seen_big = true;
+            let allowed: BTreeSet<&str> = [
+                "string::parse_fstring_expr", "string::parse_strings", "string::parse_string", "string::StringParser::<'a>::parse", "string::StringParser::<'a>::parse_fstring",
+                "string::StringParser::<'a>::parse_formatted_value", "string::StringParser::<'a>::parse_spec", "parser::parse_filtered_tokens", "parser::Parse::parse_starts_at",
+                "<rustpython_ast::Expr as parser::Parse>::parse_tokens", "<rustpython_ast::ModExpression as parser::Parse>::parse_tokens",
+            ]
+            .into_iter()
+            .collect();
+            // every `impl Parse` is a view of the same parser (C09.F2): the unresolved Self::parse_tokens call in the
+            // trait's default methods may reach each of them
+            let extra: Vec<&&String> = user.iter().filter(|n| !allowed.contains(n.as_str()) && !n.contains("{closure") && !n.ends_with("as parser::Parse>::parse_tokens")).collect();
+            if extra.is_empty() {
+                cx.ok(rule, &format!("SCC through parse_fstring_expr: {} user functions + {} generated parser functions", user.len(), scc.len() - user.len()));
+            } else {
+                cx.fail(rule, &format!("{}/parser-cycle/extra", rule), "parser/src", &format!("the parser cycle now also contains {:?}", extra));
+            }
+            continue;
+        }
+        if user.is_empty() {
+            // cycles purely inside the generated parser are covered by G1 (there are none today)
+            cx.fail(rule, &format!("{}/generated-cycle/{}", rule, scc[0]), "parser/src/python.rs", &format!("recursive cycle inside the generated parser: {:?}", scc.iter().take(4).collect::<Vec<_>>()));
+            continue;
+        }
+        cx.fail(rule, &format!("{}/new-cycle/{}", rule, user[0]), "parser/src", &format!("unreviewed recursive cycle: {:?}", user));
+    }
+    if !seen_ctx {
+        cx.fail(rule, &format!("{}/set_context/missing", rule), "parser/src/context.rs", "set_context is no longer recursive (table stale)");
+    }
+    if !seen_big {
+        cx.fail(rule, &format!("{}/parser-cycle/missing", rule), "parser/src/string.rs", "the f-string -> parser cycle was not found (table stale)");
+    }
+    // the cycle is cut: nested >= 2 early return, and the re-entry passes the field text
+    if let Ok(s) = sm::load(&cx.repo, "parser/src/string.rs") {
+        let t = sm::tsc(&s.file);
+        let cut = t.contains("fnparse_fstring(&mutself,nested:u8)->Result<Vec<Expr>,LexicalError>{useFStringErrorType::*;ifnested>=2{returnErr(FStringError::new(ExpressionNestedTooDeeply,self.get_pos()).into());}");
+        let up = t.contains("letparsed_expr=self.parse_fstring(nested+1)?;") && t.contains("letparsed_values=self.parse_formatted_value(nested)?;") && t.contains("letparsed_spec=self.parse_spec(nested)?;") && t.contains("self.parse_fstring(0)");
+        if cut && up {
+            cx.ok(rule, "f-string recursion: parse_fstring returns early for nested >= 2; the depth only grows by the literal + 1 in parse_spec and starts at 0");
+        } else {
+            cx.fail(rule, &format!("{}/nesting-bound", rule), &s.rel, "the f-string nesting bound (nested >= 2 early return, nested + 1 only in parse_spec, start at 0) is not in place");
+        }
+    }
+}
+
+// ---------------------------------------------------------------- D.some flow checker
+
+struct SomeCk<'a> {
+    cx_fails: Vec<(String, String)>,
+    oks: usize,
+    fname: &'a str,
+    some_bools: BTreeSet<String>,
+    /// text of the receiver whose unwrap is checked, e.g. `self.next_char()` or `iter.next()`
+    unwrap_recv: &'a str,
+    /// (receiver, method) of the consuming call
+    consumer: (&'a str, &'a str),
+}
+
+impl<'a> SomeCk<'a> {
+    fn cond_establishes(&self, cond: &syn::Expr) -> bool {
+        let t = sm::tsc(cond);
+        if self.unwrap_recv == "iter.next()" {
+            return t.starts_with("letSome(") && t.ends_with("=iter.peek()");
+        }
+        t.starts_with("self.window[0]==Some(")
+            || (t.starts_with("letSome(") && t.ends_with("=self.window[0]"))
+            || t.starts_with("matches!(self.window[0],Some(")
+            || t == "self.is_identifier_continuation()"
+            || (t.starts_with("letSome(") && t.ends_with("=self.peek()"))
+            || self.some_bools.contains(&t)
+    }
+
+    /// returns whether window[0] is known Some after the statement list, given `known` before.
+    fn block(&mut self, stmts: &[syn::Stmt], mut known: bool) -> bool {
+        for s in stmts {
+            match s {
+                syn::Stmt::Local(l) => {
+                    if let Some(i) = &l.init {
+                        // let take_char = is_digit_of_radix(self.window[0], radix)
+                        let it = sm::tsc(&i.expr);
+                        if it.contains("is_digit_of_radix(self.window[0],") {
+                            let mut ids = vec![];
+                            sm::pat_idents(&l.pat, &mut ids);
+                            if let Some(id) = ids.first() {
+                                self.some_bools.insert(id.clone());
+                            }
+                        }
+                        known = self.expr(&i.expr, known);
+                        if let Some(d) = &i.diverge {
+                            self.expr(&d.1, known);
+                        }
+                    }
+                }
+                syn::Stmt::Expr(e, _) => known = self.expr(e, known),
+                _ => {}
+            }
+        }
+        known
+    }
+
+    fn expr(&mut self, e: &syn::Expr, known: bool) -> bool {
+        match e {
+            syn::Expr::MethodCall(mc) => {
+                // receiver first
+                let mut k = self.expr(&mc.receiver, known);
+                let recv = sm::tsc(&mc.receiver);
+                if (mc.method == "unwrap" || mc.method == "expect") && recv == "self.next_char()" {
+                    // the receiver's next_char was already evaluated with `known`
+                    return false;
+                }
+                if mc.method == "next_char" && recv == "self" {
+                    // is this call the receiver of an unwrap? handled by the parent via `known` passed in
+                    return false;
+                }
+                if mc.method == "then" && self.some_bools.contains(&recv) && mc.args.len() == 1 {
+                    if let syn::Expr::Closure(c) = &mc.args[0] {
+                        self.expr(&c.body, true);
+                        return false;
+                    }
+                }
+                for a in &mc.args {
+                    k = self.expr(a, k);
+                }
+                k
+            }
+            syn::Expr::If(i) => {
+                let est = self.cond_establishes(&i.cond);
+                let k_then = self.block(&i.then_branch.stmts, known || est);
+                let k_else = match &i.else_branch {
+                    Some((_, el)) => self.expr(el, known),
+                    None => known,
+                };
+                k_then && k_else
+            }
+            syn::Expr::While(w) => {
+                let est = self.cond_establishes(&w.cond);
+                self.block(&w.body.stmts, est);
+                false
+            }
+            syn::Expr::Loop(l) => {
+                self.block(&l.body.stmts, false);
+                false
+            }
+            syn::Expr::ForLoop(f) => {
+                self.block(&f.body.stmts, false);
+                false
+            }
+            syn::Expr::Match(m) => {
+                let scrut = sm::tsc(&m.expr);
+                let mut out = true;
+                let on_window = scrut == "self.window[0]";
+                let mut any_fallthrough = false;
+                for arm in &m.arms {
+                    let pat = sm::tsc(&arm.pat);
+                    let arm_known = if on_window { pat.starts_with("Some(") && !pat.contains("|None") } else { known };
+                    let diverges = {
+                        let b = sm::tsc(&arm.body);
+                        b.starts_with("{return") || b.starts_with("return") || b.contains("returnOk((Tok::Comment") || b == "{return;}"
+                    };
+                    let k = self.expr(&arm.body, arm_known);
+                    if !diverges {
+                        any_fallthrough = true;
+                        out &= if on_window { arm_known && k } else { k };
+                    }
+                }
+                if on_window && any_fallthrough {
+                    out
+                } else {
+                    false
+                }
+            }
+            syn::Expr::Block(b) => self.block(&b.block.stmts, known),
+            syn::Expr::Try(t) => self.expr(&t.expr, known),
+            syn::Expr::Paren(p) => self.expr(&p.expr, known),
+            syn::Expr::Return(r) => {
+                if let Some(x) = &r.expr {
+                    self.expr(x, known);
+                }
+                false
+            }
+            syn::Expr::Call(c) => {
+                let mut k = known;
+                for a in &c.args {
+                    k = self.expr(a, k);
+                }
+                k
+            }
+            syn::Expr::Tuple(t) => {
+                let mut k = known;
+                for a in &t.elems {
+                    k = self.expr(a, k);
+                }
+                k
+            }
+            syn::Expr::Struct(s) => {
+                let mut k = known;
+                for f in &s.fields {
+                    k = self.expr(&f.expr, k);
+                }
+                k
+            }
+            syn::Expr::Closure(c) => {
+                self.expr(&c.body, false);
+                known
+            }
+            syn::Expr::Assign(a) => self.expr(&a.right, known),
+            syn::Expr::Binary(b) => {
+                let k = self.expr(&b.left, known);
+                self.expr(&b.right, k)
+            }
+            syn::Expr::Unary(u) => self.expr(&u.expr, known),
+            syn::Expr::Reference(r) => self.expr(&r.expr, known),
+            syn::Expr::Macro(_) => known,
+            _ => known,
+        }
+    }
+}
+
+/// walk a function and report every `self.next_char().unwrap()` whose window slot is not known to be Some.
+fn check_some_dominance(block: &syn::Block, fname: &str) -> (usize, Vec<String>) {
+    check_dominance_cfg(block, fname, "self.next_char()", ("self", "next_char"))
+}
+
+pub fn check_dominance_cfg(block: &syn::Block, fname: &str, unwrap_recv: &str, consumer: (&str, &str)) -> (usize, Vec<String>) {
+    // We need the `known` flag AT each unwrap: re-walk with a visitor that computes it on the way.
+    struct W<'a> {
+        ck: SomeCk<'a>,
+        bad: Vec<String>,
+        ok: usize,
+    }
+    // Simple approach: instrument by recursion duplicating SomeCk logic but checking at unwrap sites.
+    fn go_block(w: &mut W, stmts: &[syn::Stmt], mut known: bool) -> bool {
+        for s in stmts {
+            match s {
+                syn::Stmt::Local(l) => {
+                    if let Some(i) = &l.init {
+                        let it = sm::tsc(&i.expr);
+                        if it.contains("is_digit_of_radix(self.window[0],") {
+                            let mut ids = vec![];
+                            sm::pat_idents(&l.pat, &mut ids);
+                            if let Some(id) = ids.first() {
+                                w.ck.some_bools.insert(id.clone());
+                            }
+                        }
+                        known = go_expr(w, &i.expr, known);
+                    }
+                }
+                syn::Stmt::Expr(e, _) => known = go_expr(w, e, known),
+                _ => {}
+            }
+        }
+        known
+    }
+    fn go_expr(w: &mut W, e: &syn::Expr, known: bool) -> bool {
+        match e {
+            syn::Expr::MethodCall(mc) => {
+                let recv = sm::tsc(&mc.receiver);
+                if (mc.method == "unwrap" || mc.method == "expect") && recv == w.ck.unwrap_recv {
+                    if known {
+                        w.ok += 1;
+                    } else {
+                        w.bad.push(format!("{}:{}", w.ck.fname, sm::line(mc.method.span())));
+                    }
+                    return false;
+                }
+                if mc.method == w.ck.consumer.1 && recv == w.ck.consumer.0 {
+                    return false;
+                }
+                if mc.method == "then" && w.ck.some_bools.contains(&recv) && mc.args.len() == 1 {
+                    if let syn::Expr::Closure(c) = &mc.args[0] {
+                        go_expr(w, &c.body, true);
+                        return false;
+                    }
+                }
+                let mut k = go_expr(w, &mc.receiver, known);
+                for a in &mc.args {
+                    k = go_expr(w, a, k);
+                }
+                // any other self.<consumer>() call invalidates knowledge
+                if recv == "self" && ["radix_run", "take_number", "lex_number", "lex_string", "lex_identifier", "lex_comment", "lex_and_emit_comment", "eat_single_char", "lex_number_radix", "lex_normal_number", "parse_octet", "parse_unicode_literal", "parse_unicode_name", "parse_escaped_char", "parse_fstring", "parse_formatted_value", "parse_spec"].contains(&mc.method.to_string().as_str()) {
+                    return false;
+                }
+                k
+            }
+            syn::Expr::If(i) => {
+                let est = w.ck.cond_establishes(&i.cond);
+                let k_then = go_block(w, &i.then_branch.stmts, known || est);
+                let k_else = match &i.else_branch {
+                    Some((_, el)) => go_expr(w, el, known),
+                    None => known,
+                };
+                let then_diverges = matches!(i.then_branch.stmts.last(), Some(syn::Stmt::Expr(syn::Expr::Return(_) | syn::Expr::Break(_) | syn::Expr::Continue(_), _)));
+                if then_diverges {
+                    k_else
+                } else {
+                    k_then && k_else
+                }
+            }
+            syn::Expr::While(wl) => {
+                let est = w.ck.cond_establishes(&wl.cond);
+                go_block(w, &wl.body.stmts, est);
+                false
+            }
+            syn::Expr::Let(l) => go_expr(w, &l.expr, known),
+            syn::Expr::Loop(l) => {
+                go_block(w, &l.body.stmts, false);
+                false
+            }
+            syn::Expr::ForLoop(f) => {
+                go_block(w, &f.body.stmts, false);
+                false
+            }
+            syn::Expr::Match(m) => {
+                let scrut = sm::tsc(&m.expr);
+                let on_window = scrut == "self.window[0]" || scrut == "self.peek()";
+                let mut out = true;
+                let mut any_fallthrough = false;
+                for arm in &m.arms {
+                    let pat = sm::tsc(&arm.pat);
+                    let arm_known = if on_window { pat.starts_with("Some(") && !pat.contains("None") } else { known };
+                    let b = sm::tsc(&arm.body);
+                    let diverges = b.starts_with("{return") || b.starts_with("return") || b == "break" || b == "continue" || b.starts_with("{letend_pos=self.get_pos();return");
+                    let k = go_expr(w, &arm.body, arm_known);
+                    if !diverges {
+                        any_fallthrough = true;
+                        out &= k;
+                    }
+                }
+                any_fallthrough && out
+            }
+            syn::Expr::Block(b) => go_block(w, &b.block.stmts, known),
+            syn::Expr::Try(t) => go_expr(w, &t.expr, known),
+            syn::Expr::Paren(p) => go_expr(w, &p.expr, known),
+            syn::Expr::Return(r) => {
+                if let Some(x) = &r.expr {
+                    go_expr(w, x, known);
+                }
+                false
+            }
+            syn::Expr::Call(c) => {
+                let mut k = known;
+                for a in &c.args {
+                    k = go_expr(w, a, k);
+                }
+                k
+            }
+            syn::Expr::Tuple(t) => {
+                let mut k = known;
+                for a in &t.elems {
+                    k = go_expr(w, a, k);
+                }
+                k
+            }
+            syn::Expr::Struct(s) => {
+                let mut k = known;
+                for f in &s.fields {
+                    k = go_expr(w, &f.expr, k);
+                }
+                k
+            }
+            syn::Expr::Closure(c) => {
+                go_expr(w, &c.body, false);
+                known
+            }
+            syn::Expr::Assign(a) => go_expr(w, &a.right, known),
+            syn::Expr::Binary(b) => {
+                let k = go_expr(w, &b.left, known);
+                go_expr(w, &b.right, k)
+            }
+            syn::Expr::Unary(u) => go_expr(w, &u.expr, known),
+            syn::Expr::Reference(r) => go_expr(w, &r.expr, known),
+            _ => known,
+        }
+    }
+    let mut w = W { ck: SomeCk { cx_fails: vec![], oks: 0, fname, some_bools: BTreeSet::new(), unwrap_recv, consumer }, bad: vec![], ok: 0 };
+    go_block(&mut w, &block.stmts, false);
+    let _ = (&w.ck.cx_fails, w.ck.oks);
+    (w.ok, w.bad)
+}
+
+fn discharge_some(cx: &mut Ctx) {
+    let rule = "C03.D.some";
+    cx.rule(rule, "D.some / D.peek: every `self.next_char().unwrap()` in the lexer and the string parser is dominated, with no consuming call in between, by a test that the next character exists: window[0] == Some(..), if let Some(..) = window[0] / peek(), matches!(window[0], Some(..)), while is_identifier_continuation(), a match on window[0] whose only fall-through arms are Some(..), or the closure of `b.then(..)` with b = is_digit_of_radix(window[0], _); the predicates used are true only for Some(..)");
+    cx.floor(rule, 8);
+    for (rel, ty) in [("parser/src/lexer.rs", "Lexer"), ("parser/src/string.rs", "StringParser")] {
+        let Ok(src) = sm::load(&cx.repo, rel) else {
+            cx.anchor_missing(rule, rel);
+            continue;
+        };
+        for i in src.impls() {
+            if sm::self_ty_name(i) != ty {
+                continue;
+            }
+            for it in &i.items {
+                let syn::ImplItem::Fn(f) = it else { continue };
+                let fname = f.sig.ident.to_string();
+                if fname == "lex_string" {
+                    continue; // D.prefix, checked below
+                }
+                let (ok, bad) = check_some_dominance(&f.block, &fname);
+                for _ in 0..ok {
+                    cx.ok(rule, &format!("{}::{}: next_char().unwrap() dominated by a Some-test", ty, fname));
+                }
+                for b in bad {
+                    cx.fail(rule, &format!("{}/{}::{}", rule, ty, fname), &format!("{}:{}", rel, b.rsplit(':').next().unwrap_or("")), &format!("{}::{}: `self.next_char().unwrap()` is not dominated by a test that a character is available (or a character was consumed since the test): panics at end of input", ty, fname));
+                }
+            }
+        }
+        if ty == "Lexer" {
+            // predicate summaries
+            let t = sm::tsc(&src.file);
+            let pred1 = t.contains("fnis_identifier_continuation(&self)->bool{matchself.window[0]{Some('a'..='z'|'A'..='Z'|'_'|'0'..='9')=>true,Some(c)=>is_xid_continue(c),_=>false,}}");
+            if pred1 {
+                cx.ok(rule, "is_identifier_continuation() is true only for Some(..)");
+            } else {
+                cx.fail(rule, &format!("{}/summary/is_identifier_continuation", rule), rel, "is_identifier_continuation may be true for None");
+            }
+            if let Some(d) = crate::rules::lexer_rules::lexer_method(&src, "is_digit_of_radix") {
+                let body = sm::tsc(&d.block);
+                let n_arms = body.matches("=>matches!(c,Some(").count();
+                if n_arms == 4 && body.matches("=>").count() == 5 {
+                    cx.ok(rule, "is_digit_of_radix(c, _) is true only for Some(..)");
+                } else {
+                    cx.fail(rule, &format!("{}/summary/is_digit_of_radix", rule), rel, "is_digit_of_radix may be true for None");
+                }
+            }
+            // D.prefix: lex_string call sites
+            let prefix_ok = t.contains("[Some(c),Some('\"'|'\\''),..]=>{ifletOk(kind)=StringKind::try_from(c){returnself.lex_string(kind);}}")
+                && t.contains("[Some(c1),Some(c2),Some('\"'|'\\'')]=>{ifletOk(kind)=StringKind::try_from([c1,c2]){returnself.lex_string(kind);}}")
+                && t.contains("'\"'|'\\''=>{letstring=self.lex_string(StringKind::String)?;")
+                && t.matches("self.lex_string(").count() == 3;
+            if prefix_ok {
+                cx.ok(rule, "D.prefix: the three lex_string call sites have matched a quote at window[prefix_len(kind)] (1-char prefix: slot 1, 2-char prefix: slot 2, no prefix: slot 0)");
+            } else {
+                cx.fail(rule, &format!("{}/lex_string-callers", rule), rel, "a lex_string call site does not establish the quote character at window[prefix_len]: `let quote_char = self.next_char().unwrap()` can panic");
+            }
+            // D.entry: consume_character is only called under if let Some(c) = self.window[0]
+            let entry_ok = t.contains("ifletSome(c)=self.window[0]{ifself.is_identifier_start(c){letidentifier=self.lex_identifier()?;self.emit(identifier);}else{self.consume_character(c)?;}}") && t.matches("self.consume_character(").count() == 1 && t.matches(".eat_single_char(").count() == 9;
+            if entry_ok {
+                cx.ok(rule, "D.entry: consume_character(c) is called only under `if let Some(c) = self.window[0]`; eat_single_char only from its arms (9 call sites)");
+            } else {
+                cx.fail(rule, &format!("{}/entry", rule), rel, "consume_character / eat_single_char are reachable without a character established in window[0] (unreachable_unchecked would be undefined behaviour)");
+            }
+        }
+    }
+}
+
+fn discharge_constants(cx: &mut Ctx) {
+    let rule = "C03.D.const";
+    cx.rule(rule, "D.idx / D.hex / D.octal / D.guard / D.lenmatch: window indices are literals below the window size 3; parse_unicode_literal is only called with literal digit counts <= 8; the octal reader takes at most 3 digits into a u32; the unicode-name length test precedes the table lookup; length-dependent indexing sits in the arm that fixes the length");
+    cx.floor(rule, 6);
+    if let Ok(lx) = sm::load(&cx.repo, "parser/src/lexer.rs") {
+        let mut bad = vec![];
+        let mut n = 0;
+        struct V<'a> {
+            n: &'a mut usize,
+            bad: &'a mut Vec<String>,
+        }
+        impl<'a, 'ast> syn::visit::Visit<'ast> for V<'a> {
+            fn visit_expr_index(&mut self, i: &'ast syn::ExprIndex) {
+                let base = sm::tsc(&i.expr);
+                if base.ends_with(".window") {
+                    *self.n += 1;
+                    let ix = sm::tsc(&i.index);
+                    let ok = matches!(ix.as_str(), "0" | "1" | "2" | "..2" | "..3" | "index");
+                    if !ok {
+                        self.bad.push(format!("{}[{}]", base, ix));
+                    }
+                }
+                syn::visit::visit_expr_index(self, i);
+            }
+        }
+        use syn::visit::Visit;
+        V { n: &mut n, bad: &mut bad }.visit_file(&lx.file);
+        let win3 = sm::tsc(&lx.file).contains("window:CharWindow<T,3>,");
+        if bad.is_empty() && win3 && n >= 40 {
+            cx.ok(rule, &format!("D.idx: {} window accesses, all with literal slots 0..=2 / ..2 / ..3 of CharWindow<T, 3>", n));
+        } else {
+            cx.fail(rule, &format!("{}/window-index", rule), &lx.rel, &format!("window accesses outside the constant slots of a 3-slot window: {:?} (window size 3: {})", bad, win3));
+        }
+    }
+    if let Ok(s) = sm::load(&cx.repo, "parser/src/string.rs") {
+        let t = sm::tsc(&s.file);
+        let calls: Vec<&str> = t.match_indices("self.parse_unicode_literal(").map(|(i, _)| &t[i + 27..i + 29]).collect();
+        let ok = calls.len() == 3 && calls.iter().all(|c| ["2)", "4)", "8)"].contains(c));
+        if ok {
+            cx.ok(rule, "D.hex: parse_unicode_literal is called with the literals 2, 4, 8 only");
+        } else {
+            cx.fail(rule, &format!("{}/hex-digits", rule), &s.rel, &format!("parse_unicode_literal call arguments are {:?}: with more than 8 digits the shift / sum overflows u32", calls));
+        }
+        if t.contains("ifname.len()>MAX_UNICODE_NAME{returnErr(LexicalError::new(LexicalErrorType::UnicodeError,self.get_pos(),));}unicode_names2::character(&name)") && t.contains("constMAX_UNICODE_NAME:usize=88;") {
+            cx.ok(rule, "D.guard: the name-length test (88) precedes unicode_names2::character");
+        } else {
+            cx.fail(rule, &format!("{}/unicode-name-guard", rule), &s.rel, "unicode_names2::character is called without the preceding MAX_UNICODE_NAME length test");
+        }
+        if t.contains("whileoctet_content.len()<3{") && t.contains("letvalue=u32::from_str_radix(&octet_content,8).unwrap();char::from_u32(value).unwrap()") {
+            cx.ok(rule, "D.octal: at most 3 octal digits (<= 0o777 = 511 < 0xD800) parsed into u32 and converted with char::from_u32");
+        } else {
+            cx.fail(rule, &format!("{}/octal", rule), &s.rel, "the octal escape value is not parsed into a u32 from at most 3 digits: from_str_radix / char conversion can fail for \\400..\\777");
+        }
+    }
+    if let Ok(p) = sm::load(&cx.repo, "parser/src/parser.rs") {
+        let t = sm::tsc(&p.file);
+        if t.contains("letexpected=(expected.len()==1).then(||expected[0].clone());") {
+            cx.ok(rule, "D.lenmatch: expected[0] under (expected.len() == 1).then(..)");
+        } else {
+            cx.fail(rule, &format!("{}/expected-index", rule), &p.rel, "expected[0] is not guarded by expected.len() == 1");
+        }
+        if t.contains("letstatement=matchstatements.len(){0=>{") && t.contains("1=>statements.pop().unwrap(),_=>{returnErr(ParseError{error:ParseErrorType::InvalidToken,offset:statements[1].range().start(),") {
+            cx.ok(rule, "D.lenmatch: pop().unwrap() in the arm len == 1, statements[1] in the arm len >= 2");
+        } else {
+            cx.fail(rule, &format!("{}/stmt-len", rule), &p.rel, "Stmt::parse_tokens indexes/pops outside the arm that fixes the length");
+        }
+    }
+}
+
+/// C03.A1: unwraps inside grammar actions.
+fn action_unwraps(cx: &mut Ctx) {
+    let rule = "C03.A1";
+    cx.rule(rule, "every `.unwrap()` in a grammar action is either part of a range-end chain over trailing statement lists whose last link is mandatory (validated by C02.R1), or applies to a binding the grammar proves non-empty (`+`, OneOrMore, TwoOrMore) / to a value guarded by the enclosing condition (`!suffix.is_empty()`, `elts.len() == 1`)");
+    cx.floor(rule, 20);
+    let g = match crate::tables::load_grammar(&cx.repo) {
+        Ok(g) => g,
+        Err(e) => return cx.anchor_missing(rule, &e),
+    };
+    for (d, a, e) in crate::rules::grammar_rules::actions(&g) {
+        let mut sites: Vec<String> = vec![];
+        sm::for_each_expr(e, |x| {
+            if let syn::Expr::MethodCall(mc) = x {
+                if mc.method == "unwrap" && mc.args.is_empty() {
+                    sites.push(sm::tsc(&mc.receiver));
+                }
+            }
+        });
+        if sites.is_empty() {
+            continue;
+        }
+        let code = sm::tsc(e);
+        for recv in sites {
+            let key = format!("{}/{}/{}", rule, crate::rules::grammar_rules::alt_key(d, a), recv.chars().take(40).collect::<String>());
+            // (1) range-end chains: end with .last() / or_else(..) chains over bindings -> C02.R1
+            let chain = recv.contains(".last()") && (code.contains(&format!("{}.unwrap().end()", recv)) || code.contains(&format!("{}.unwrap().body.last().unwrap().end()", recv)) || recv.contains(".or_else(") || code.contains(&format!("{}.unwrap();", recv)) && recv.contains("last.end()"));
+            // (2) non-empty by grammar: X.first()/X.last()/X.pop() with X bound to + / OneOrMore / TwoOrMore
+            let base: String = recv.chars().take_while(|c| c.is_alphanumeric() || *c == '_').collect();
+            let sym = a.syms.iter().find(|s| s.binding.as_deref() == Some(base.as_str()));
+            let nonempty = sym.map_or(false, |s| s.rep.contains('+') || matches!(&s.kind, crate::grammar::SymKind::Macro(n, _) if n == "OneOrMore" || n == "TwoOrMore"));
+            // (3) guarded
+            let guarded = (recv == "values.pop()" && code.contains("ifsuffix.is_empty(){") && code.contains("letmutvalues=suffix;")) || (recv == "elts.into_iter().next()" && code.contains("ifelts.len()==1&&trailing_comma.is_none(){elts.into_iter().next().unwrap()}"));
+            if chain || nonempty || guarded {
+                cx.ok(rule, &format!("{}: `{}.unwrap()` {}", crate::rules::grammar_rules::alt_key(d, a), recv.chars().take(50).collect::<String>(), if guarded { "guarded by the enclosing condition" } else if nonempty { "on a binding the grammar proves non-empty" } else { "range-end chain (C02.R1)" }));
+            } else {
+                cx.fail(rule, &key, &crate::rules::grammar_rules::lal(a), &format!("`{}.unwrap()` in this action has no non-emptiness justification: it panics on an input that makes the value empty/None", recv));
+            }
+        }
+    }
+}
+
+/// D.range: every range built from captures brackets at least one non-nullable symbol.
+fn nullable_ranges(cx: &mut Ctx) {
+    let rule = "C03.R1";
+    cx.rule(rule, "D.range: TextRange::new asserts start <= end, so every `(@L..@R).into()` / optional_range(@L, @R) in an action must bracket at least one non-nullable symbol: for an empty match @L is the start of the NEXT token and @R the end of the PREVIOUS one, which may be reversed");
+    cx.floor(rule, 100);
+    let g = match crate::tables::load_grammar(&cx.repo) {
+        Ok(g) => g,
+        Err(e) => return cx.anchor_missing(rule, &e),
+    };
+    // nullable nonterminals: least fixpoint
+    let mut nullable: BTreeSet<String> = BTreeSet::new();
+    fn sym_nullable(s: &crate::grammar::Sym, nullable: &BTreeSet<String>, g: &crate::grammar::Grammar) -> bool {
+        use crate::grammar::SymKind::*;
+        if s.rep.contains('?') || s.rep.contains('*') {
+            return true;
+        }
+        match &s.kind {
+            Term(_) => false,
+            Lookahead | Lookbehind => true,
+            Name(n) => {
+                if g.is_extern_name(n) {
+                    false
+                } else {
+                    nullable.contains(n)
+                }
+            }
+            Macro(n, args) => {
+                if n == "Comma" {
+                    true
+                } else if n == "OneOrMore" || n == "TwoOrMore" {
+                    args.first().map_or(false, |a| sym_nullable(a, nullable, g))
+                } else {
+                    nullable.contains(n)
+                }
+            }
+            Group(v) => v.iter().all(|x| sym_nullable(x, nullable, g)),
+        }
+    }
+    loop {
+        let mut changed = false;
+        for d in &g.defs {
+            if nullable.contains(&d.name) {
+                continue;
+            }
+            if d.alts.iter().any(|a| a.syms.iter().all(|s| sym_nullable(s, &nullable, &g))) {
+                nullable.insert(d.name.clone());
+                changed = true;
+            }
+        }
+        if !changed {
+            break;
+        }
+    }
+    cx.unit("nullable nonterminals", nullable.len());
+    for (d, a, e) in crate::rules::grammar_rules::actions(&g) {
+        let mut flow = crate::actionflow::Flow::new(a);
+        flow.run_expr(e);
+        let mut n = 0;
+        for lit in &flow.lits {
+            let Some(re) = &lit.range_expr else { continue };
+            let Some((sa, sb)) = crate::rules::c02::split_range(re, &lit.defs, 0) else { continue };
+            let s = crate::rules::c02::classify_end(sa, a, &lit.env, &lit.defs, 0);
+            let en = crate::rules::c02::classify_end(sb, a, &lit.env, &lit.defs, 0);
+            if let (crate::rules::c02::End::Capture(_, lo, _), crate::rules::c02::End::Capture(_, hi, _)) = (&s, &en) {
+                n += 1;
+                let solid = *lo < *hi && a.syms[*lo + 1..*hi].iter().any(|x| !sym_nullable(x, &nullable, &g));
+                if solid {
+                    cx.ok(rule, &format!("{}: {} range brackets a non-nullable symbol", crate::rules::grammar_rules::alt_key(d, a), lit.ty));
+                } else {
+                    cx.fail(rule, &format!("{}/{}/{}#{}", rule, crate::rules::grammar_rules::alt_key(d, a), lit.ty, n), &crate::rules::grammar_rules::lal(a), &format!("the captures used for the range of {} bracket only nullable symbols: for an empty match start > end and TextRange::new panics", lit.ty));
+                }
+            }
+        }
+    }
+}
+
+// ---------------------------------------------------------------- progress
+
+const CONSUMERS: &[&str] = &[
+    "next_char", "eat_single_char", "lex_identifier", "lex_number", "lex_string", "lex_number_radix", "lex_normal_number",
+    "parse_escaped_char", "parse_formatted_value", "parse_octet", "parse_unicode_literal", "parse_unicode_name",
+];
+/// conditional consumers, with the reason they consume in the context they are used
+const CONDITIONAL: &[(&str, &str)] = &[
+    ("take_number", "consumes iff it returns Some (used as `if let Some(c) = self.take_number(radix)`)"),
+    ("lex_and_emit_comment", "called under the arm Some('#'): the '#' itself is consumed"),
+    ("parse_fstring", "called from parse_spec when the peeked character is '{': parse_fstring consumes it or returns Err"),
+    ("consume_normal", "consumes a character or emits a token (EndOfFile at end of input), which ends `while pending.is_empty()`"),
+    ("pop", "pops the finite indentation stack"),
+    ("peek", "MultiPeek::peek advances its look-ahead cursor over a finite token stream"),
+    ("next", "pulls the next token / character of a finite stream"),
+];
+
+fn path_has_progress(stmts: &[syn::Stmt]) -> Vec<(bool, String)> {
+    // enumerate paths to the end of the body (back edge) or `continue`; each path: (progress?, description)
+    fn go(stmts: &[syn::Stmt], acc: bool, desc: String, out: &mut Vec<(bool, String)>) -> Vec<(bool, String)> {
+        // returns the set of (progress, desc) states that fall through the end of `stmts`
+        let mut states = vec![(acc, desc)];
+        for s in stmts {
+            let mut next = vec![];
+            for (p, d) in states {
+                match s {
+                    syn::Stmt::Local(l) => {
+                        let mut p2 = p;
+                        if let Some(i) = &l.init {
+                            p2 |= expr_progress(&i.expr);
+                            // let Some(c) = self.next_char() else { return .. };
+                        }
+                        next.push((p2, d));
+                    }
+                    syn::Stmt::Expr(e, _) => next.extend(go_expr(e, p, d, out)),
+                    _ => next.push((p, d)),
+                }
+            }
+            states = next;
+        }
+        states
+    }
+    fn expr_progress(e: &syn::Expr) -> bool {
+        let mut found = false;
+        sm::for_each_expr(e, |x| {
+            if let syn::Expr::MethodCall(mc) = x {
+                let m = mc.method.to_string();
+                let recv = sm::tsc(&mc.receiver);
+                if (recv == "self" && (CONSUMERS.contains(&m.as_str()) || CONDITIONAL.iter().any(|c| c.0 == m))) || (recv == "self.underlying" && (m == "peek" || m == "next")) || (recv == "self.indentations" && m == "pop") || (recv == "self.chars" && m == "next") {
+                    found = true;
+                }
+            }
+        });
+        found
+    }
+    fn diverges(e: &syn::Expr) -> bool {
+        match e {
+            syn::Expr::Return(_) | syn::Expr::Break(_) => true,
+            syn::Expr::Block(b) => b.block.stmts.last().map_or(false, |s| matches!(s, syn::Stmt::Expr(x, _) if diverges(x))),
+            syn::Expr::Macro(m) => m.mac.path.is_ident("unreachable") || m.mac.path.is_ident("panic"),
+            syn::Expr::Try(t) => matches!(&*t.expr, syn::Expr::Call(c) if sm::tsc(&c.func) == "Err"),
+            _ => false,
+        }
+    }
+    fn go_expr(e: &syn::Expr, p: bool, d: String, out: &mut Vec<(bool, String)>) -> Vec<(bool, String)> {
+        match e {
+            syn::Expr::If(i) => {
+                // `if let Some(c) = self.take_number(..)`: progress only in the then-branch
+                let cond_prog = expr_progress(&i.cond);
+                let cond_is_conditional = sm::tsc(&i.cond).contains("self.take_number(");
+                let then_p = p || cond_prog;
+                let else_p = if cond_is_conditional { p } else { p || cond_prog };
+                let mut res = go(&i.then_branch.stmts, then_p, format!("{}/if({})", d, sm::tsc(&i.cond).chars().take(30).collect::<String>()), out);
+                match &i.else_branch {
+                    Some((_, el)) => res.extend(go_expr(el, else_p, format!("{}/else", d), out)),
+                    None => res.push((else_p, format!("{}/!if", d))),
+                }
+                res
+            }
+            syn::Expr::Match(m) => {
+                let scrut_p = p || expr_progress(&m.expr);
+                let mut res = vec![];
+                for arm in &m.arms {
+                    let ad = format!("{}/{}", d, sm::tsc(&arm.pat).chars().take(24).collect::<String>());
+                    res.extend(go_expr(&arm.body, scrut_p, ad, out));
+                }
+                res
+            }
+            syn::Expr::Block(b) => go(&b.block.stmts, p, d, out),
+            syn::Expr::Continue(_) => {
+                out.push((p, format!("{}/continue", d)));
+                vec![]
+            }
+            syn::Expr::Return(_) | syn::Expr::Break(_) => vec![],
+            other => {
+                if diverges(other) {
+                    return vec![];
+                }
+                vec![(p || expr_progress(other), d)]
+            }
+        }
+    }
+    let mut out = vec![];
+    let fall = go(stmts, false, String::new(), &mut out);
+    out.extend(fall);
+    out
+}
+
+fn progress(cx: &mut Ctx) {
+    let rule = "C03.P1";
+    cx.rule(rule, "structural progress: in lexer.rs, soft_keywords.rs and string.rs every iteration path of every loop (to its back edge or a `continue`) contains a consuming call — next_char, a lex_*/parse_* function that consumes at least one character or fails, a pull/peek on the finite token stream, a pop of the finite indentation stack — or leaves the loop; `while let Some(..) = self.next_char()` and `while self.is_identifier_continuation() { next_char }` consume at the head; the conditional consumers are tabled with the condition under which they are used");
+    cx.floor(rule, 18);
+    for rel in ["parser/src/lexer.rs", "parser/src/soft_keywords.rs", "parser/src/string.rs"] {
+        let Ok(src) = sm::load(&cx.repo, rel) else {
+            cx.anchor_missing(rule, rel);
+            continue;
+        };
+        let mut fns: Vec<(String, &syn::Block)> = vec![];
+        for f in src.all_free_fns() {
+            fns.push((f.sig.ident.to_string(), &f.block));
+        }
+        for i in src.impls() {
+            for it in &i.items {
+                if let syn::ImplItem::Fn(f) = it {
+                    fns.push((format!("{}::{}", sm::self_ty_name(i), f.sig.ident), &f.block));
+                }
+            }
+        }
+        for (fname, block) in fns {
+            let mut loop_no = 0;
+            sm::for_each_expr_in_block(block, |e| {
+                let (head_progress, body, kind): (bool, &syn::Block, String) = match e {
+                    syn::Expr::Loop(l) => (false, &l.body, "loop".into()),
+                    syn::Expr::While(w) => {
+                        let c = sm::tsc(&w.cond);
+                        let head = c.contains("=self.next_char()") || c.contains("self.underlying.peek()");
+                        (head, &w.body, format!("while {}", c.chars().take(40).collect::<String>()))
+                    }
+                    syn::Expr::ForLoop(_) => return, // iterates a finite collection / range
+                    _ => return,
+                };
+                loop_no += 1;
+                let key = format!("{}/{}/loop{}", rule, fname, loop_no);
+                if head_progress {
+                    cx.ok(rule, &format!("{} {}: consumes at the loop head", fname, kind));
+                    return;
+                }
+                let paths = path_has_progress(&body.stmts);
+                let stuck: Vec<&(bool, String)> = paths.iter().filter(|p| !p.0).collect();
+                // `while !self.indentations.is_empty()` / `while self.pending.is_empty()`: body progress covers it
+                if stuck.is_empty() {
+                    cx.ok(rule, &format!("{} {}: all {} iteration paths make progress or leave the loop", fname, kind, paths.len()));
+                } else {
+                    cx.fail(rule, &key, rel, &format!("{} {}: iteration path(s) {:?} reach the back edge without consuming anything: the lexer can spin forever", fname, kind, stuck.iter().map(|p| p.1.clone()).collect::<Vec<_>>()));
+                }
+            });
+        }
+    }
+    for (name, why) in CONDITIONAL {
+        cx.assume(&format!("conditional consumer `{}`: {}", name, why));
+    }
+    // P2: inner_next / consume_normal
+    if let Ok(lx) = sm::load(&cx.repo, "parser/src/lexer.rs") {
+        let t = sm::tsc(&lx.file);
+        let eof_emits = t.contains("self.emit((Tok::EndOfFile,TextRange::empty(tok_pos)));");
+        let next_maps = t.contains("matchtoken{Ok((Tok::EndOfFile,_))=>None,r=>Some(r),}");
+        if eof_emits && next_maps {
+            cx.ok(rule, "P2: at end of input consume_normal emits EndOfFile (ending `while pending.is_empty()`), which Iterator::next maps to None: the token stream is finite");
+        } else {
+            cx.fail(rule, &format!("{}/eof", rule), &lx.rel, "end of input does not emit EndOfFile / Iterator::next does not turn it into None");
+        }
+    }
+}
+
+fn unsafe_inventory(cx: &mut Ctx) {
+    let rule = "C03.U1";
+    cx.rule(rule, "unsafe inventory: the unsafe blocks in the parser, core and vendored crates are exactly the reviewed ones (lexer eat_single_char: unreachable_unchecked, discharged by D.entry; newlines::find_newline: get_unchecked at a position memchr2 returned for the same slice), and no unsafe fn / impl exists");
+    cx.floor(rule, 2);
+    let mut found: BTreeMap<String, usize> = BTreeMap::new();
+    for rel in crate::rules::c02::workspace_rs_files(&cx.repo) {
+        if !(rel.starts_with("parser/src") || rel.starts_with("core/src") || rel.starts_with("vendored/src")) || rel.ends_with("python.rs") {
+            continue;
+        }
+        let Ok(src) = sm::load(&cx.repo, &rel) else { continue };
+        struct V {
+            n: usize,
+        }
+        impl<'ast> syn::visit::Visit<'ast> for V {
+            fn visit_expr_unsafe(&mut self, u: &'ast syn::ExprUnsafe) {
+                self.n += 1;
+                syn::visit::visit_expr_unsafe(self, u);
+            }
+            fn visit_item_fn(&mut self, f: &'ast syn::ItemFn) {
+                if f.sig.unsafety.is_some() {
+                    self.n += 100;
+                }
+                syn::visit::visit_item_fn(self, f);
+            }
+            fn visit_impl_item_fn(&mut self, f: &'ast syn::ImplItemFn) {
+                if f.sig.unsafety.is_some() {
+                    self.n += 100;
+                }
+                syn::visit::visit_impl_item_fn(self, f);
+            }
+            fn visit_item_impl(&mut self, i: &'ast syn::ItemImpl) {
+                if i.unsafety.is_some() {
+                    self.n += 100;
+                }
+                syn::visit::visit_item_impl(self, i);
+            }
+        }
+        use syn::visit::Visit;
+        let mut v = V { n: 0 };
+        v.visit_file(&src.file);
+        if v.n > 0 {
+            found.insert(rel, v.n);
+        }
+    }
+    let want: BTreeMap<String, usize> = [("parser/src/lexer.rs".to_string(), 1usize), ("vendored/src/source_location/newlines.rs".to_string(), 1usize)].into_iter().collect();
+    for (f, n) in &found {
+        match want.get(f) {
+            Some(w) if w == n => cx.ok(rule, &format!("{}: {} reviewed unsafe block", f, n)),
+            _ => cx.fail(rule, &format!("{}/{}", rule, f), f, &format!("{} unsafe block(s)/item(s) in {} are not in the reviewed inventory", n, f)),
+        }
+    }
+    for f in want.keys() {
+        if !found.contains_key(f) {
+            cx.fail(rule, &format!("{}/{}/stale", rule, f), f, "reviewed unsafe block no longer exists (table stale; fail closed)");
+        }
+    }
+    if let Ok(nl) = sm::load(&cx.repo, "vendored/src/source_location/newlines.rs") {
+        let t = sm::tsc(&nl.file);
+        if t.contains("ifletSome(position)=memchr2(b'\\n',b'\\r',bytes){") && t.contains("unsafe{*bytes.get_unchecked(position)}") {
+            cx.ok(rule, "find_newline: get_unchecked(position) with position = memchr2(.., bytes) on the same slice");
+        } else {
+            cx.fail(rule, &format!("{}/find_newline", rule), &nl.rel, "get_unchecked index is not the position memchr2 returned for the same slice");
+        }
+    }
+}
